@@ -12,6 +12,8 @@
 (***************************************************************************)
 EXTENDS MC_Conn, Json
 
+CONSTANT CrossOnly     \* TRUE: print only the transitions in which the reader of an EARLIER attempt takes a step
+
 VARIABLE hist
 cvars == <<vars, hist>>
 
@@ -38,12 +40,12 @@ CNext ==
   \/ CloseSocket /\ H(<<"CloseSocket">>)
   \/ Return /\ H(<<"Return", retRes>>)
   \/ \E a \in Att :
-       \/ ReaderRead(a) /\ H(<<"ReaderRead", ReadOutcome(a)>>)
-       \/ ReaderSeesCtx(a) /\ H(<<"ReaderSeesCtx">>)
-       \/ ReaderSeesDone(a) /\ H(<<"ReaderSeesDone">>)
-       \/ ReaderPublish(a) /\ H(<<"ReaderPublish">>)
-       \/ ReaderCloseErr(a) /\ H(<<"ReaderCloseErr">>)
-       \/ ReaderCloseEv(a) /\ H(<<"ReaderCloseEv">>)
+       \/ ReaderRead(a) /\ H(<<"ReaderRead", ReadOutcome(a), ToString(a)>>)
+       \/ ReaderSeesCtx(a) /\ H(<<"ReaderSeesCtx", ToString(a)>>)
+       \/ ReaderSeesDone(a) /\ H(<<"ReaderSeesDone", ToString(a)>>)
+       \/ ReaderPublish(a) /\ H(<<"ReaderPublish", ToString(a)>>)
+       \/ ReaderCloseErr(a) /\ H(<<"ReaderCloseErr", ToString(a)>>)
+       \/ ReaderCloseEv(a) /\ H(<<"ReaderCloseEv", ToString(a)>>)
   \/ Cancel /\ H(<<"Cancel">>)
   \/ Break /\ H(<<"Break">>)
   \/ ErrorCall /\ H(<<"ErrorCall", IF sErrChan = 0 THEN "immediate" ELSE "waits">>)
@@ -52,7 +54,13 @@ CNext ==
 CSpec == CInit /\ [][CNext]_cvars
 
 StateView == vars        \* hist is not part of a state's identity
+\* a coarser identity for the two-attempt graph: one representative (reached by a shortest path) per combination of where
+\* the caller, both readers, the handler and Error() stand and of what has been cancelled, closed or broken
+CrossView == <<att, spc, rpc, hpc, epc, sock, ctxDone, doneClosed>>
 
 \* one line per transition: the path to the source state plus the transition
-EdgeEmit == PrintT(ToJson([steps |-> hist', result |-> "none", eres |-> "none", rexit |-> "none", complete |-> FALSE]))
+ReaderSteps == {"ReaderRead", "ReaderSeesCtx", "ReaderSeesDone", "ReaderPublish", "ReaderCloseErr", "ReaderCloseEv"}
+LastStep == hist'[Len(hist')]
+IsCross == LastStep[1] \in ReaderSteps /\ LastStep[Len(LastStep)] # ToString(att')
+EdgeEmit == (~CrossOnly \/ IsCross) => PrintT(ToJson([steps |-> hist', result |-> "none", eres |-> "none", rexit |-> "none", complete |-> FALSE]))
 =============================================================================
